@@ -10,6 +10,7 @@
 package main
 
 import (
+	"math/big"
 	"bytes"
 	"context"
 	"crypto"
@@ -785,7 +786,7 @@ func (w *world) certNames(i int) string {
 	for _, p := range all.PermanentIdentifiers {
 		if !find("permanent-identifier", func(v string) bool { return v == p.Identifier }) {
 			if strings.HasPrefix(p.Identifier, "*.") && find("permanent-identifier", func(v string) bool { return v == p.Identifier[2:] }) {
-				return "VIOL:certificate-name-not-validated:pid-wildcard" // C13-F4
+				return "VIOL:certificate-name-not-validated:pid-wildcard" // C13-F4 (fixed in 77ebdfa)
 			}
 			return "VIOL:certificate-name-not-validated"
 		}
@@ -948,17 +949,23 @@ func (w *world) exec(op Op, prev string) (tok, out, dump string, err error) {
 		if akey < 1 || akey > len(attKeys) {
 			akey = 1
 		}
+		attestable := true
 		if op.Obj >= 0 && op.Obj < len(w.chals) {
 			if x, err := w.db.GetChallenge(bg, id, ""); err == nil {
 				ka, _ := acme.KeyAuthorization(x.Token, w.accs[op.Acct].Key)
 				payload, _ = attestPayload(ka, x.Value, op.How, attKeys[akey-1])
+				// the step format attests a decimal serial number: a challenge for anything else
+				// (`*.1234567` since /repo 77ebdfa) cannot be answered, the attestation names another device
+				if n, ok := new(big.Int).SetString(x.Value, 10); !ok || n.String() != x.Value {
+					attestable = false
+				}
 			}
 		}
 		if payload == nil {
 			payload = []byte("{}")
 		}
 		out := "j"
-		if op.How == "ok" {
+		if op.How == "ok" && attestable {
 			out = fmt.Sprintf("s%d", akey)
 		}
 		tok = fmt.Sprintf("t:%d:%d:%d:%d:%s", op.Acct, op.Obj, op.Az, op.Now, out)
@@ -1601,7 +1608,7 @@ func main() {
 		k := genCase(r.Fork())
 		if *names {
 			k.Names = true
-			// C13-F4 material: a permanent identifier that begins with `*.`
+			// C13-F4 regression material: a permanent identifier that begins with `*.`
 			for oi := range k.Ops {
 				for j, id := range k.Ops[oi].IDs {
 					if strings.HasPrefix(id, "permanent-identifier:") && (i+oi+j)%4 == 0 {
@@ -1617,7 +1624,7 @@ func main() {
 // cornerNames: fixed histories for C13's end-to-end predicate
 func cornerNames() []*Case {
 	return []*Case{
-		// C13-F4: the attestation names 1234567, the certificate carries *.1234567
+		// C13-F4 (fixed in 77ebdfa): the attestation named 1234567, the certificate carried *.1234567
 		{Names: true, Ops: []Op{{K: "n", IDs: []string{"permanent-identifier:*.1234567"}}, {K: "t", Obj: 0, Az: 0, Key: 1, Now: 1, How: "ok"}, {K: "f", Now: 2, CSR: "match", Key: 1}}},
 		// C13-F2: the dns name of a mixed attested order is validated and then left out of the certificate
 		{Names: true, Ops: []Op{{K: "n", IDs: []string{"permanent-identifier:42", "dns:a.example.com"}}, {K: "t", Obj: 0, Az: 0, Key: 1, Now: 1, How: "ok"}, {K: "r", Obj: 2, Now: 2, How: "ok"}, {K: "f", Now: 3, CSR: "match", Key: 1}}},
